@@ -292,6 +292,10 @@ GATE_CASES = [
     ('[x.__class__ for x in a]', ['a'], True, 'dunder attribute inside a comprehension'),
     ('"{0.__class__}".format(a)', ['a'], True, 'str.format field syntax reads a dunder attribute without an ast.Attribute node'),
     ('"{x.__class__}".format_map({"x": a})', ['a'], True, 'str.format_map field syntax reads a dunder attribute'),
+    ('sorted([a], key="{0.__class__}".format)', ['a', 'sorted'], True, 'the bound str.format handed UNCALLED to a context function that calls it (key=): the '
+                                                                    'field syntax reads the dunder attribute'),
+    ('min([a], key="{0.__class__}".format_map)', ['a', 'min'], True, 'the bound str.format_map handed uncalled to a context function'),
+    ('[f("x") for f in ["{0.__class__}".format]]', [], True, 'the bound str.format stored in a display'),
     *[(f'a.{attr}', ['a'], True, f'introspection attribute .{attr} (CPython data model: reaches frames, code objects or the real builtins '
                                   f'without a dunder name, e.g. (x for x in y).gi_frame.f_back.f_builtins)')
       for attr in ('gi_frame', 'gi_code', 'gi_yieldfrom', 'cr_frame', 'cr_code', 'cr_await', 'ag_frame', 'ag_code', 'ag_await',
@@ -590,4 +594,88 @@ def r6_context_precedence(a, tier):
     return rep
 
 
-RULES = [r1_builtins, r2_who_may_eval, r3_gate, r4_inert, r5_shared_tables_are_read_only, r6_context_precedence]
+def constant_terminates(a, tier, rule_id):
+    """constant() re-evaluates its result until it stops changing: with an evaluator whose result always changes it must still end"""
+    from ..minieval import Raised, Unsupported
+    from ..modelinterp import Bound, Hook, ModelInterp, Recorder, Stub
+    rep = RuleReport(
+        rule_id,
+        'evaluation of a constant ends: constant() evaluates its result again until it stops changing (deep evaluation); interpreted with '
+        'stand-in evaluators whose result NEVER stops changing - an interpolation that grows (the value of {a} contains {a}), one that '
+        'alternates between two texts, one that doubles - it returns or raises a TatSu failure after a bounded number of evaluator calls; '
+        'with an evaluator that converges (in one, two and three passes) it returns the converged value',
+        floor=5,
+    )
+    fn = a.ct.lookup('tatsu.contexts.engine.ParserEngine', 'constant')
+
+    class AstD(dict):
+        pass
+
+    class Diverges(Exception):
+        pass
+    LIMIT = 3000
+
+    def scenario(step, start='{a}'):
+        calls = [0]
+
+        def lit_eval(sx):
+            raise Raised('ValueError', ast.Pass())
+
+        def safe_eval(expr, ctx):
+            calls[0] += 1
+            if calls[0] > LIMIT:
+                raise Diverges()
+            inner = ast.literal_eval(expr[1:]) if expr[:2] in ("f'", 'f"') else expr
+            return step(inner)
+        state = Recorder('state')
+        exc = Stub('tatsu.exceptions.FailedParse')
+        me = Stub('tatsu.contexts.engine.ParserEngine', state=state, tracer=Recorder('tracer'), next_token=Hook(lambda *x: None), semantics=Hook(None),
+                  ast=AstD({'a': 1}), newexcept=Hook(lambda *x, **k: exc))
+        consts = {}
+        try:
+            from ..minieval import module_constants
+            consts = {k: v for k, v in module_constants(fn.module).items() if isinstance(v, (int, float))}
+        except Exception:  # noqa: BLE001
+            pass
+        it = ModelInterp(a, {**consts, 'AST': AstD, 'safe_builtins': Hook(lambda: {}), 'is_eval_safe': Hook(lambda e, c: True), 'safe_eval': Hook(safe_eval),
+                             'stdlib_ast': Hook(None, literal_eval=Hook(lit_eval)), 'trim': Hook(lambda x: x.strip()), 'Undefined': object(),
+                             'getattr': Hook(lambda o, n, *d: (o.attrs[n] if isinstance(o, Hook) and n in o.attrs else (d[0] if d else None)))})
+        try:
+            got = it.call_bound(Bound(me, fn), [start], {})
+            return ('returns', got, calls[0])
+        except Raised as r:
+            return ('raises', r.cls_name, calls[0])
+        except Diverges:
+            return ('diverges', None, calls[0])
+        except Unsupported as e:
+            raise AnalysisError(f'{rule_id}: cannot interpret constant(): {e}') from e
+    flip = {'A': 'B', 'B': 'A'}
+    conv3 = {'{a}': 'p', 'p': 'q', 'q': 'r'}
+    cases = [
+        ('an interpolation that grows by one character each pass', lambda t: t + 'x', None),
+        ('an interpolation that doubles each pass', lambda t: t + t if len(t) < 10 ** 6 else t + 'x', None),
+        ('a result that alternates between two texts', lambda t: flip.get(t, 'A'), None),
+        ('a result that converges at once', lambda t: t, '{a}'),
+        ('a result that converges in the second pass', lambda t: 'v' if t == '{a}' else t, 'v'),
+        ('a result that converges in the fourth pass', lambda t: conv3.get(t, t), 'r'),
+    ]
+    for what, step, want in cases:
+        kind, val, n = scenario(step)
+        if want is None:
+            ok = kind == 'returns' or (kind == 'raises' and str(val).split('(')[0].split('.')[-1] in ('newexcept', 'expectedexcept')) or (kind == 'raises' and any(q.split('.')[-1] == str(val).split('(')[0].split('.')[-1] and a.ct.is_subclass(q, 'tatsu.exceptions.TatSuException')
+                                                                 for q in a.p.classes))
+        else:
+            ok = kind == 'returns' and val == want
+        rep.add({'evaluator': what, 'constant()': kind, 'value_or_exception': repr(val)[:60], 'evaluator_calls': n, 'ok': ok})
+        if not ok:
+            rep.fail(fn.qualname, f'constant-terminates:{what}', f'constant() with {what}: {kind} {val!r} after {n} evaluator calls' + (
+                f' (limit of the checker: {LIMIT}): the parse of a text such as `{{a}}x`, bound to a and used by the constant `{{a}}`, never returns' if want is None
+                else f'; required: returns {want!r} (deep evaluation until the value stops changing)'), fn.loc)
+    return rep
+
+
+def r7_constant_terminates(a, tier):
+    return constant_terminates(a, tier, 'C17.R7')
+
+
+RULES = [r1_builtins, r2_who_may_eval, r3_gate, r4_inert, r5_shared_tables_are_read_only, r6_context_precedence, r7_constant_terminates]
